@@ -97,6 +97,18 @@ def _unit_case(args):
     return out1, out2
 
 
+# shapes the random stream reaches rarely: collapsing ?rules around filtered tokens (region of F19), empty trees inlined by ?rules, inlined _rules, placeholders
+META_CORPUS = [
+    'start: r A\n?r: _U B\nA: "a"\nB: "b"\n_U: "u"\n%ignore /[ \\n]+/\n',
+    'start: a c\n?a: "x" b\nb: "y"*\nc: "z"\n%ignore /[ \\n]+/\n',
+    'start: (_l | r)+\n_l: "(" A ")"\n?r: "[" (A | _l) "]"\nA: "a"\n%ignore /[ \\n]+/\n',
+    'start: p p\n?p: "<" [A] ">"\nA: "a"\n%ignore /[ \\n]+/\n',
+    'start: x+\n?x: "(" x ")" | y\ny: A*\nA: "a"\n%ignore /[ \\n]+/\n',
+    'start: _sep{A, ","} ";"\n_sep{x, s}: x (s x)*\nA: "a"\n%ignore /[ \\n]+/\n',
+    'start: q q\n!?q: "k" | "(" q ")"\n%ignore /[ \\n]+/\n',
+]
+
+
 def run(ctx, res):
     rng = random.Random(ctx['seed'] * 1000003 + 6)
     tier = ctx['tier']
@@ -192,5 +204,5 @@ def run(ctx, res):
             t = Lark(w['grammar'], parser='lalr', propagate_positions=True).parse(w['text'])
             if t.meta.start_pos != 0:
                 res.known_hits.append(('F19', '%s: %r on %r gives start.meta.start_pos=%d, the rule matched from offset 0' % (f['what'], w['grammar'], w['text'], t.meta.start_pos)))
-    jobs2, outs2 = shapelib.shape_stream(ctx, 66, 60, 2500, ntexts=3, newlines=True)
+    jobs2, outs2 = shapelib.shape_stream(ctx, 66, 160, 2500, ntexts=3, newlines=True, positions=True, corpus=META_CORPUS)
     c03.check(ctx, res, jobs2, outs2, want_meta=True)
